@@ -68,10 +68,10 @@ VALUES = {
     "List[int]": [[1, "2"], ["a"], "notalist", [], None, [1.0, 2]],
     "Dict[str, int]": [{"a": "1"}, {"a": "x"}, {}, None, [1]],
     "Optional[int]": [None, "4", 4, "q"],
-    "Pt": [["Pt", {"x": 1, "y": "k"}], {"x": "3"}, {"y": 1}, 5, None, {"x": 2, "y": "w", "extra": 1}],
+    "Pt": [["Pt", {"x": 1, "y": "k"}], ["Pt", {"x": 7}], {"x": "3"}, {"y": 1}, 5, None, {"x": 2, "y": "w", "extra": 1}],
     "DC": [["DC", {"a": 1, "b": "k"}], {"a": "3"}, {"b": "only"}, 5, None],
     "PtB": [{"z": "4"}, {"z": 1, "w": "q"}, {"x": 1}, None, 7],
-    "free": [1, "x", 2.5, None, True, [1, "a", None], {"k": [1, 2]}, "11", {"x": 1}, ["Pt", {"x": 9, "y": "m"}], ["DC", {"a": 4, "b": "n"}], []],
+    "free": [1, "x", 2.5, None, True, [1, "a", None], {"k": [1, 2]}, "11", {"x": 1}, ["Pt", {"x": 9, "y": "m"}], ["Pt", {"x": 8}], ["DC", {"a": 4, "b": "n"}], ["DC", {"a": 6}], []],
 }
 
 
